@@ -172,6 +172,8 @@ var c04Sources = []string{
 	"%big.select($this * 2).where($this mod 3 = 0).count()", "%big.distinct().count()", "%big.exists($this = 299)",
 	// function arguments that are not constants (one compiled call, other argument values per evaluation)
 	"5.convertsToQuantity(%unit1)", "5.toQuantity(%unit1).toString()", "'abc'.substring(%fint)", "'a,b'.replace(',', %fstr)", "'abc'.indexOf(%fstr)", "%multi.skip(%fint).count()", "%multi.take(%fpos)", "'abc'.startsWith(%fstr)", "2.power(%fint)", "10.log(%fpos)", "1.5.round(%fpos)",
+	// a string nobody has used before in this process (see the first-touch phase): anything keyed by argument text is filled in then
+	"'abc'.matches(%uniq)", "'abc'.replaceMatches(%uniq, 'x')", "'abc'.replace(%uniq, 'y')", "'abc'.contains(%uniq)", "('1 ' & %uniq).convertsToQuantity()", "%uniq.convertsToDate()",
 	// elements that carry no precision: conversion must not write into the shared message
 	"%fdtnp.toString()", "%fdnp.toString()", "%ftnp.toString()", "%fdtnp = %fdtnp", "Patient.birthDate.toString()", "Patient.deceased.toString()", "Patient.meta.lastUpdated.toString()",
 }
@@ -188,7 +190,13 @@ func c04BigVars() []fhirpath.EvaluateOption {
 	mixed[260] = system.String("text")
 	mixed[261] = system.Collection(nil)
 	mixed = append(mixed[:261], mixed[262:]...)
-	return []fhirpath.EvaluateOption{evalopts.EnvVariable("big", big), evalopts.EnvVariable("bigmixed", mixed), evalopts.EnvVariable("unit1", system.String("mg"))}
+	return []fhirpath.EvaluateOption{evalopts.EnvVariable("big", big), evalopts.EnvVariable("bigmixed", mixed), evalopts.EnvVariable("unit1", system.String("mg")), evalopts.EnvVariable("uniq", system.String("zq-base"))}
+}
+
+// c04BigVarsUniq is c04BigVars with %uniq bound to the given text (a pattern that matches nothing in the programs above).
+func c04BigVarsUniq(u string) []fhirpath.EvaluateOption {
+	o := c04BigVars()
+	return append(o[:len(o)-1:len(o)-1], evalopts.EnvVariable("uniq", system.String(u)))
 }
 
 type c04Obs struct {
@@ -371,7 +379,7 @@ func runC04(env *core.Env) {
 			for a := range exprs {
 				ra := (a + rep) % len(resources)
 				fresh := proto.Clone(pristine[ra]).(fhir.Resource)
-				feo := append(append(gen.EnvOpts(gen.StdEnv()), evalopts.OverrideTime(c04Fixed)), c04BigVars()...)
+				feo := append(append(gen.EnvOpts(gen.StdEnv()), evalopts.OverrideTime(c04Fixed)), c04BigVarsUniq(fmt.Sprintf("zq%dx%dy%d", rep, g, a))...)
 				outs := make([]string, g)
 				var wg sync.WaitGroup
 				start := make(chan struct{})
